@@ -766,6 +766,12 @@ def c08(tier, seed):
             inv = [op("incvar", var="i"), iff("i", "ge", jj, [op(rng.choice(["fatalf", "errorf", "panic"]), site=2)])]
         body = [op("setvar", var=v, val="0") for v in ("n", "f", "e", "i")]
         rep = {"op": "repeat", "actions": actions}
+        if i % 5 == 4 and len(chosen) <= 3:
+            # the machine as a struct: its actions are collected by rapid.StateMachineActions (methods ActA, ActB(*T), ActC(TB); Check is the invariant)
+            actions = {nm: body_ for nm, body_ in zip(["ActA", "ActB", "ActC"], actions.values())}
+            rep = {"op": "repeat", "actions": actions, "val": "struct"}
+            if inv is None:
+                inv = [op("incvar", var="i")]
         if inv is not None:
             rep["inv"] = inv
         body.append(rep)
